@@ -63,20 +63,40 @@ _uid = [None]
 _real_getuid = os.getuid
 
 
+_PHYSICAL = ("ext2", "ext3", "ext4", "xfs", "vfat", "exfat", "ntfs", "btrfs", "f2fs")
+
+
 def _disk_partitions(all=False):
-    return list(_partitions)
+    # like psutil: all=False lists the physical devices only
+    return [p for p in _partitions if all or p.fstype in _PHYSICAL]
 
 
 def _getuid():
     return _real_getuid() if _uid[0] is None else _uid[0]
 
 
-def set_world(vols, uid, now, utc_offset=0):
+def set_world(vols, uid, now, utc_offset=0, fstypes=None):
     """called in the child: vols are world-absolute mount points ('/' included)"""
-    _partitions[:] = [sdiskpart("/dev/vt%d" % i, v, "ext4", "rw") for i, v in enumerate(vols)]
+    fstypes = fstypes or {}
+    _partitions[:] = [sdiskpart("/dev/vt%d" % i, v, fstypes.get(v, "ext4"), "rw") for i, v in enumerate(vols)]
     _uid[0] = uid
     VDatetime._vt_now = now
     VDatetime._vt_utc_offset = utc_offset
+
+
+def set_epoch(now):
+    """called in the child after tzset(): the virtual instant as seconds since the epoch, so that
+    time.time() and datetime.now() describe the SAME moment (in the world's time zone, daylight
+    saving included).  Returns (epoch seconds, utc offset in force at that instant)."""
+    import time as _time
+    try:
+        e = _time.mktime((now.year, now.month, now.day, now.hour, now.minute, now.second, 0, 0, -1))
+        off = _time.localtime(e).tm_gmtoff
+    except (OverflowError, ValueError, OSError):
+        return None, 0
+    e += now.microsecond / 1e6
+    _time.time = lambda: e
+    return e, off
 
 
 SCRIPTS = ("trash-put", "trash-list", "trash-restore", "trash-empty", "trash-rm", "trash")
